@@ -270,6 +270,7 @@ fn c15_compatible_evidence_joins_to_the_truth() {
     std::panic::set_hook(Box::new(|_| {}));
     let mut cases = 0u64;
     let mut reported = 0;
+    let mut hangs = 0;
     let t0 = std::time::Instant::now();
     for round in 0..2500 * scale() {
         let mut rng = Rng::seeded(15_000 + round);
@@ -285,15 +286,19 @@ fn c15_compatible_evidence_joins_to_the_truth() {
                 Outcome::Panicked(p) => Some((format!("PANIC {}", &p[..p.len().min(160)]), "the true types".into())),
             }
         };
-        if fails(&js).is_some() {
+        if let Some((got0, _)) = fails(&js) {
             reported += 1;
+            // a run that does not terminate costs the whole budget: no shrinking, and stop after a few
+            let hung = got0.starts_with("unify did not terminate");
+            if hung { hangs += 1; }
             if reported <= 4 {
-                let small = minimise(&js, 120, |cand| deficient(&g, cand).is_empty() && fails(cand).is_some());
-                let (got, want) = fails(&small).or_else(|| fails(&js)).unwrap_or(("(not reproduced on re-run: order dependent)".into(), "the true types".into()));
+                let small = if hung { js.clone() } else { minimise(&js, 120, |cand| deficient(&g, cand).is_empty() && fails(cand).is_some()) };
+                // (the fold order inside `unify` is a fresh hash order on every run: retry before giving up)
+                let (got, want) = (0..6).find_map(|_| fails(&small)).or_else(|| fails(&js)).unwrap_or(("(not reproduced on re-run: order dependent)".into(), "the true types".into()));
                 witness("C15", "join.compatible_is_most_specific", format!("{} truth: {}", show_js(n, &small), truth_line(&g)), got, want);
             }
         }
-        if t0.elapsed() > Duration::from_secs(20 * scale()) { break; }
+        if hangs >= 3 || t0.elapsed() > Duration::from_secs(20 * scale()) { break; }
     }
     println!("CASES c15_compatible {cases}");
 }
@@ -303,6 +308,7 @@ fn c15_injected_contradiction_is_a_conflict() {
     std::panic::set_hook(Box::new(|_| {}));
     let mut cases = 0u64;
     let mut reported: BTreeMap<&'static str, u32> = BTreeMap::new();
+    let mut hangs = 0;
     let t0 = std::time::Instant::now();
     for round in 0..2500 * scale() {
         let mut rng = Rng::seeded(15_500 + round);
@@ -355,22 +361,24 @@ fn c15_injected_contradiction_is_a_conflict() {
                 Outcome::Panicked(p) => Some((format!("PANIC {}", &p[..p.len().min(160)]), "a conflict".into())),
             }
         };
-        if fails(&js2).is_some() {
+        if let Some((got0, _)) = fails(&js2) {
             let c = reported.entry(kind).or_insert(0);
             *c += 1;
+            let hung = got0.starts_with("unify did not terminate");
+            if hung { hangs += 1; }
             if *c <= 2 {
                 // shrink, keeping the injected judgement, the class intact and its evidence complete
-                let small = minimise(&js2, 120, |cand| {
+                let small = if hung { js2.clone() } else { minimise(&js2, 120, |cand| {
                     if !cand.contains(&injected) { return false; }
                     let without: Vec<J> = cand.iter().filter(|j| **j != injected).cloned().collect();
                     let mut u2 = closure(n, &without);
                     class.iter().all(|v| u2.find(*v) == u2.find(target)) && deficient(&g, &without).is_empty() && fails(cand).is_some()
-                });
-                let (got, want) = fails(&small).or_else(|| fails(&js2)).unwrap_or(("(not reproduced on re-run: order dependent)".into(), "a conflict".into()));
+                }) };
+                let (got, want) = (0..6).find_map(|_| fails(&small)).or_else(|| fails(&js2)).unwrap_or(("(not reproduced on re-run: order dependent)".into(), "a conflict".into()));
                 witness("C15", "join.contradiction_is_conflict", format!("{} [{kind}]", show_js(n, &small)), got, want);
             }
         }
-        if t0.elapsed() > Duration::from_secs(20 * scale()) { break; }
+        if hangs >= 3 || t0.elapsed() > Duration::from_secs(20 * scale()) { break; }
     }
     println!("CASES c15_contradiction {cases}");
 }
